@@ -15,12 +15,14 @@ RULE = ("per operator in " + ", ".join(OPS) + ": 2-3 reactivex Subjects each dri
         "preemptions for the small programs, random/PCT schedules for generated ones; the downstream observer (and a probe on every emitted "
         "window) yields between entry and exit of each callback; oracle: mutual exclusion (no two distinct threads inside callbacks of one "
         "observer) and grammar N*(E|C)? per observer; distinct = (operator, program, decision list); non-trivial = preemptive switch happened")
-ASSUMPTIONS = ["line-granular serialisation (a free-running tier for sub-line races is not implemented)",
+ASSUMPTIONS = ["free-running units: real threads, switch interval 1 us, yields injected at bytecode granularity (sys.monitoring INSTRUCTION) in the files under test; not replayable, a violation carries the recorded event log; the distinct event orders seen are in the evidence sets free_interleavings:*",
+               "line-granular serialisation (a free-running tier for sub-line races is not implemented)",
                "threading primitives replaced by instrumented equivalents; yield points: every source line of the operator under test, "
                "internal/concurrency.py, observer/autodetachobserver.py, subject/subject.py, and every lock operation",
                "each source emits serially from its own thread (the harness never calls one Subject from two threads)"]
 REQUIRED = {"decided_runs": {"quick": 800, "thorough": 8000}, "preemptive_switches": {"quick": 1500, "thorough": 15000},
-            "set:ops": len(OPS), "downstream_calls": {"quick": 3000, "thorough": 30000}}
+            "set:ops": len(OPS), "downstream_calls": {"quick": 3000, "thorough": 30000},
+            "runs:free": {"quick": 2000, "thorough": 40000}, "free_injected_yields": {"quick": 20000, "thorough": 400000}}
 UNIT_TIMEOUT = {"quick": 240, "thorough": 3000}
 COMMON = ("internal/concurrency.py", "observer/autodetachobserver.py", "subject/subject.py")
 OPFILES = {
@@ -177,7 +179,7 @@ def scenario(c: Any, P: dict) -> dict:
             elif k == "E":
                 s.on_error(RuntimeError("src%d" % ti))
 
-    ts = [D.VThread(target=worker, args=(ti, p), name="P") for ti, p in enumerate(P["progs"])]
+    ts = [c.Thread(target=worker, args=(ti, p), name="P") for ti, p in enumerate(P["progs"])]
     for t in ts:
         t.start()
     for t in ts:
@@ -204,10 +206,25 @@ def units(tier: str, seed: int) -> list[dict]:
     nprog = 3 if q else 24
     for op in OPS:
         us.append({"mode": "random", "op": op, "nprog": nprog, "runs": 30 if q else 250, "seed": seed})
+    # free-running tier (real threads, bytecode-granular yield injection): the operators that need no timer thread
+    for op in OPS:
+        if not op.startswith("window_with_time"):
+            us.append({"mode": "free", "op": op, "nprog": nprog, "runs": 120 if q else 2500, "seed": seed})
     return us
 
 
 def run_unit(unit: dict, res: UnitResult) -> None:
+    if unit["mode"] == "free":
+        from ..freerun import explore_free
+        op = unit["op"]
+        res.note("ops", op)
+        ff = tuple("reactivex/" + x for x in COMMON + OPFILES[op])
+        for hi, P in enumerate(HAND):
+            if P["op"] == op:
+                explore_free(res, ID, "free-hand%d-%s" % (hi, op), scenario, P, seed=unit["seed"], runs=unit["runs"], files=ff)
+        for pi in range(unit["nprog"]):
+            explore_free(res, ID, "free-gen%d-%s" % (pi, op), scenario, gen_program(case_rng(unit["seed"], ID, op, pi), op), seed=unit["seed"], runs=unit["runs"], files=ff)
+        return
     from .. import dcheck, dsched as D
     if unit["mode"] == "dfs":
         P = HAND[unit["hand"]]
@@ -231,6 +248,12 @@ def run_unit(unit: dict, res: UnitResult) -> None:
 
 
 def replay(rep: dict, res: UnitResult) -> None:
+    if rep.get("free"):
+        from ..freerun import explore_free
+        op = rep["params"]["op"]
+        explore_free(res, ID, rep["scenario"], scenario, rep["params"], seed=rep.get("seed", 0), runs=rep.get("runs", 1000),
+                     files=tuple("reactivex/" + x for x in COMMON + OPFILES[op]))
+        return
     from .. import dcheck, dsched as D
     D.install(D.repo_file(*(COMMON + OPFILES[rep["params"]["op"]])))
     dcheck.replay(res, ID, scenario, rep)
